@@ -174,6 +174,38 @@ def deser(R, ctx):
         R.ob(rid, "rule-object|filters-one-or-many", n >= 2, ctx.where(f), "%d next_value::<OneOrMany<FilterPattern>> reads (apply + skip)" % n)
 
 
+def glob(R, ctx):
+    rid = "C20.glob"
+    lib = ctx.lib
+    FP = "utils::filter_pattern::FilterPattern"
+    R.rule(rid, "FilterPattern::matches answers with wax's `is_match` of a glob built from the pattern text given by the user; the library never "
+                "calls `Glob::partition_or_tree` (documented to substitute the tree wildcard `**` when nothing of the glob is left: a literal "
+                "pattern `src/vendor` would match every file below it) nor walks the file system to decide a filter")
+    m = lib.fn(FP + "::matches")
+    n = lib.fn(FP + "::new")
+    if not R.require(rid, "anchor", m is not None and n is not None, "", "FilterPattern::{new,matches} not found"):
+        return
+    fa = ctx.an.fa(m["path"])
+    ism = [c for c in thir.calls(m) if c.get("fname") == "is_match" and (FP, "glob") in fa.origins(c["args"][0])]
+    R.ob(rid, "matches|is_match-on-own-glob", len(ism) >= 1, ctx.where(m), "%d `self.glob.is_match(..)` calls" % len(ism))
+    gn = [c for c in thir.fn_refs(n) if (thir.callee_of(c) or "").startswith("wax::") and c.get("fname") == "new"]
+    R.ob(rid, "new|Glob::new", len(gn) >= 1, ctx.where(n), "the glob is built with wax::Glob::new: %s" % bool(gn))
+    bad = []
+    total = 0
+    for f in lib.fn_list:
+        if not thir.body_of(f) or "::test" in f["path"]:
+            continue
+        for c in thir.fn_refs(f):
+            cal = thir.callee_of(c) or ""
+            if cal.startswith("wax::"):
+                total += 1
+                if c.get("fname") in ("partition_or_tree",):
+                    bad.append((f, c))
+    R.require(rid, "floor:wax-calls", total >= 2, "", "%d references to wax functions in the library (positive control for the zero-count rule)" % total)
+    R.ob(rid, "no-partition_or_tree", not bad, ctx.where(bad[0][0], bad[0][1].get("ln")) if bad else ctx.where(n),
+         "no call of Glob::partition_or_tree" if not bad else "%s calls Glob::partition_or_tree: a pattern without wildcard becomes `<pattern>/**`" % bad[0][0]["path"])
+
+
 def run(R, ctx):
     R.explanation = (
         "The two filter predicates are turned into decision tables over the 3x3 abstract states of the apply/skip lists by an "
@@ -184,3 +216,4 @@ def run(R, ctx):
     table(R, ctx)
     dominate(R, ctx)
     deser(R, ctx)
+    glob(R, ctx)
